@@ -44,7 +44,14 @@ impl Gen {
         }
     }
     fn plain(&mut self) -> String {
-        match self.g.below(10) {
+        match self.g.below(16) {
+            // line ends in whitespace other than ' ' / '\t': must survive strip_trailing_whitespace
+            10 => "x\u{3000}".to_string(),
+            11 => "y\u{a0}".to_string(),
+            12 => "z\u{c}".to_string(),
+            13 => "w\r\nq".to_string(),
+            14 => "k \t".to_string(),
+            15 => "v\u{3000} ".to_string(),
             0 => " ".to_string(),
             1 => "  ".to_string(),
             2 => "a\nb".to_string(),
@@ -58,7 +65,10 @@ impl Gen {
         let id = self.uniq();
         let is_line = self.g.below(2) == 0;
         let multi = !is_line && !self.excl && self.g.below(2) == 0;
-        let text = if is_line {
+        let text = if is_line && self.g.below(4) == 0 {
+            // a line comment whose last char is non-ASCII / non-blank whitespace (kept by the strip pass)
+            format!("// c{}c{}", id, ['\u{3000}', '\u{a0}', '\u{c}'][self.g.below(3) as usize])
+        } else if is_line {
             format!("// c{}c", id)
         } else if multi {
             format!("/* c{}c\n   bb */", id)
@@ -184,6 +194,32 @@ fn check_if_break(gn: &mut Gen) -> Option<String> {
         esc(&format!("{:?}", d)), o.max_width, o.indent_width, esc(o.newline), esc(&r.text), esc(&between), esc(&expected)))
 }
 
+/// independent oracle for the strip pass: per line (split at the newline string) drop trailing ' ' / '\t' only
+fn strip_oracle(raw: &str, nl: &str) -> String {
+    let mut out = String::new();
+    let mut rest = raw;
+    loop {
+        let (line, more) = match rest.find(nl) { Some(i) => (&rest[..i], Some(&rest[i + nl.len()..])), None => (rest, None) };
+        let mut end = line.len();
+        let b = line.as_bytes();
+        while end > 0 && (b[end - 1] == b' ' || b[end - 1] == b'\t') { end -= 1; }
+        out.push_str(&line[..end]);
+        match more { Some(m) => { out.push_str(nl); rest = m; } None => break }
+    }
+    out
+}
+
+/// C28 content clause, strip pass: rendering with strip_trailing_whitespace == raw rendering minus trailing ' ' / '\t' per line
+fn check_strip(d: &Doc, o: &RenderOpts) -> Option<String> {
+    let raw = render(d, &RenderOpts { strip_trailing_whitespace: false, ..o.clone() });
+    let got = render(d, &RenderOpts { strip_trailing_whitespace: true, ..o.clone() });
+    let want = strip_oracle(&raw, o.newline);
+    if got == want { return None; }
+    Some(format!(
+        "{{\"fn\":\"strip_trailing_whitespace\",\"why\":\"stripped rendering is not the raw rendering with only trailing ' '/'\\\\t' removed per line\",\"doc\":\"{}\",\"opts\":{{\"max_width\":{},\"indent_width\":{},\"newline\":\"{}\",\"strip_trailing_whitespace\":true}},\"raw\":\"{}\",\"actual\":\"{}\",\"expected\":\"{}\"}}",
+        esc(&format!("{:?}", d)), o.max_width, o.indent_width, esc(o.newline), esc(&raw), esc(&got), esc(&want)))
+}
+
 fn witness() -> Doc {
     // DESIGN section 7, F-C28-col: a token on the same output line after a block comment containing '\n'
     concat(vec![
@@ -221,6 +257,10 @@ fn main() {
         n += 1;
         vp_case(format!("{{\"doc\":\"{}\",\"max_width\":{},\"indent_width\":{},\"newline\":\"{}\"}}", esc(&format!("{:?}", d)), o.max_width, o.indent_width, esc(o.newline)));
         if let Some(j) = check(&d, &o, "render_with_anchors") {
+            println!("FOUND {}", j);
+            std::process::exit(1);
+        }
+        if let Some(j) = check_strip(&d, &o) {
             println!("FOUND {}", j);
             std::process::exit(1);
         }
